@@ -963,8 +963,10 @@ def solve(objfun, x0, h=None, lh=None, prox_uh=None, argsf=(), argsh=(), argspro
     if bounds is None:
         xl = None
         xu = None
+    elif len(bounds) != 2:
+        xl = None  # reported as an input error below
+        xu = None
     else:
-        assert len(bounds) == 2, "bounds must be a 2-tuple of (lower, upper), where both are arrays of size(x0)"
         xl = bounds[0].astype(float) if bounds[0] is not None else None
         xu = bounds[1].astype(float) if bounds[1] is not None else None
 
@@ -1013,6 +1015,8 @@ def solve(objfun, x0, h=None, lh=None, prox_uh=None, argsf=(), argsh=(), argspro
         ('growing.full_rank.use_full_rank_interp' in user_params or 'growing.perturb_trust_region_step' in user_params)
 
     exit_info = None
+    if bounds is not None and len(bounds) != 2:
+        exit_info = ExitInformation(EXIT_INPUT_ERROR, "bounds must be a 2-tuple of (lower, upper), where both are arrays of size(x0)")
     # Check the shapes first: the scaling below combines x0, xl and xu
     if exit_info is None and np.shape(x0) != (n,):
         exit_info = ExitInformation(EXIT_INPUT_ERROR, "x0 must be a vector")
